@@ -1735,6 +1735,12 @@ fn WrapPosition(position: u64) -> u32 {
     result
 }
 
+/// verification hook: WrapPosition is private; the C01 correspondence check compares it with its model
+#[cfg(brotli_verif)]
+pub fn verif_wrap_position(position: u64) -> u32 {
+    WrapPosition(position)
+}
+
 impl<Alloc: BrotliAlloc> BrotliEncoderStateStruct<Alloc> {
     fn get_brotli_storage(&mut self, size: usize) {
         if self.storage_size_ < size {
